@@ -813,8 +813,13 @@ impl CatalogPersistence {
     pub fn save(catalog: &Catalog, path: &Path) -> Result<()> {
         let catalog_bytes = Self::serialize(catalog).wrap_err("failed to serialize catalog")?;
 
-        let mut file = File::create(path)
-            .wrap_err_with(|| format!("failed to create catalog file at '{}'", path.display()))?;
+        // Write the new catalog next to the old one and rename it into place once it is
+        // complete and synced: a crash while the catalog is being rewritten must leave the
+        // previous catalog (all existing tables and indexes) readable.
+        let tmp_path = path.with_extension("catalog.tmp");
+        let mut file = File::create(&tmp_path).wrap_err_with(|| {
+            format!("failed to create catalog file at '{}'", tmp_path.display())
+        })?;
         #[cfg(kahflane_turdb_verif)]
         crate::verif::crash_point("catalog.created");
 
@@ -855,6 +860,23 @@ impl CatalogPersistence {
 
         file.sync_all()
             .wrap_err("failed to sync catalog file to disk")?;
+        drop(file);
+        #[cfg(kahflane_turdb_verif)]
+        crate::verif::crash_point("catalog.tmp_synced");
+
+        std::fs::rename(&tmp_path, path).wrap_err_with(|| {
+            format!(
+                "failed to move new catalog '{}' into place at '{}'",
+                tmp_path.display(),
+                path.display()
+            )
+        })?;
+        if let Some(dir) = path.parent() {
+            // make the rename itself durable; not all platforms allow syncing a directory
+            if let Ok(d) = File::open(dir) {
+                let _ = d.sync_all();
+            }
+        }
         #[cfg(kahflane_turdb_verif)]
         {
             crate::verif::synced(path);
